@@ -207,6 +207,7 @@ def extract(ctx):
     X.expect(len(ads) == 2 and isinstance(ads[0], ast.Name) and ads[0].id in mod_assigns, 'parse_uri: address default is not a module constant')
     g.nats('addressDefault', ast.literal_eval(mod_assigns[ads[0].id]))
     g.string('addressExpr', ast.unparse(ads[1]))
+    g.string('newAddrExpr', ast.unparse(single('new_addr')))
     ad = single('addr')
     X.expect(isinstance(ad, ast.Call) and isinstance(ad.func, ast.Attribute) and ad.func.attr == 'format' and len(ad.args) == 1, 'parse_uri: addr = <fmt>.format(x) expected')
     g.string('addrPadFmt', _const_str(ad.func.value, 'addr format'))
@@ -264,6 +265,10 @@ def extract(ctx):
     ad = sam['addr'][0]
     X.expect(isinstance(ad, ast.Call) and isinstance(ad.func, ast.Attribute) and ad.func.attr == 'format' and len(ad.args) == 1, 'scan_interface: addr = <fmt>.format(x) expected')
     g.string('scanAddrPadFmt', _const_str(ad.func.value, 'scan addr format'))
+    g.string('scanAddrPadArg', ast.unparse(ad.args[0]))
+    X.expect('new_addr' in sam and len(sam['new_addr']) == 1, 'scan_interface: new_addr = ... not found')
+    g.string('scanNewAddrExpr', ast.unparse(sam['new_addr'][0]))
+    g.strings('scanSetAddressCalls', [ast.unparse(n) for n in ast.walk(si) if isinstance(n, ast.Call) and ast.unparse(n.func) == 'self._radio.set_address'])
     sc = X.struct_calls(si)
     X.expect(len(sc) == 1 and sc[0]['fn'] == 'unpack', 'scan_interface: expected one struct.unpack')
     g.string('scanAddrUnpackFmt', sc[0]['fmt'] or '?')
@@ -884,6 +889,23 @@ def g_other_scheme(rng):
         'bogus', 'usbx://0', 'udpx://h:1', 'tcp//h', 'serial:/x', 'radio://0/80\nusb://0', 'usb://0\nradio://0/80', 'tcp://h:1\nudp://h:1'])
 
 
+def g_scheme_uri(rng):
+    """a URI of one of the six known schemes with an arbitrary tail; sometimes the scheme itself is damaged"""
+    scheme = rng.choice(['radio', 'usb', 'usb', 'serial', 'udp', 'prrt', 'tcp'])
+    tail = ''.join(rng.choice('0123456789' if scheme == 'usb' and rng.random() < 0.7 else '0123456789abcXYZ/.:-_ \n?#') for _ in range(rng.choice([0, 1, 1, 2, 3, 6])))
+    if scheme == 'usb' and rng.random() < 0.3:
+        tail += rng.choice(['\n', '\n\n', ' ', '/', '\r\n'])
+    u = scheme + '://' + tail
+    r = rng.random()
+    if r < 0.1:
+        u = u.replace('://', rng.choice([':/', '//', ':///', '::/', '://'[:2] + ' /']), 1)
+    elif r < 0.2:
+        u = rng.choice([' ', 'x', '\n', scheme[0]]) + u
+    elif r < 0.25:
+        u = u.capitalize()
+    return u
+
+
 def g_regex(rng):
     """a pattern in (and sometimes just outside) the supported shape, and strings to try"""
     lits = 'abcxyzUSB019:/-_ ,'
@@ -962,8 +984,10 @@ def g_connect_uri(rng, w):
         return u
     if r < 0.6:
         return 'usb://' + rng.choice(['0', '1', '2', '3', '00', '1\n', 'x', ''])
-    if r < 0.7 and w['devices']:
-        return 'serial://' + rng.choice(list(w['devices']) + ['nope', 'tty USB'])
+    if r < 0.7:
+        return 'serial://' + rng.choice(list(w['devices']) + ['nope', 'tty USB', 'ttyUSB0'])
+    if r < 0.85:
+        return rng.choice(['udp', 'tcp', 'prrt']) + '://' + rng.choice(['127.0.0.1', '192.168.4.1', 'host']) + ':' + str(rng.choice([1, 5000, 65535]))
     return g_other_scheme(rng)
 
 
@@ -988,16 +1012,28 @@ def gen_cases(ctx):
 
     def parse_case(serials, uri, tag):
         add('parse', 'parse %s %s' % (encs(serials), enc(uri)), lambda: real_parse(serials, uri), {'op': 'parse', 'serials': serials, 'uri': uri, 'stream': tag}, ('parse', tuple(serials), uri))
-    # ---- corpus-like fixed cases ---------------------------------------------------------------------------
+    # ---- corpus (minimised past disagreements / witnesses) runs first --------------------------------------------
+    import glob
+    import json
+    import os
+    for f in sorted(glob.glob(os.path.join(os.path.dirname(os.path.dirname(os.path.abspath(__file__))), 'corpus', 'c20', '*.json'))):
+        ent = json.load(open(f))
+        if ent.get('op') == 'parse':
+            for u in ent['uris']:
+                parse_case(list(ent.get('serials', [])), u, 'corpus')
+        elif ent.get('op') == 'claims':
+            for u in ent['uris']:
+                add('claims', 'claims ' + enc(u), lambda u=u: real_claims(u), {'op': 'claims', 'uri': u}, ('claims', u))
+    # ---- fixed cases ---------------------------------------------------------------------------------------------
     for u in ['radio://0', 'radio://0/', 'radio://0/80', 'radio://0/80/', 'radio://0/80/2M', 'radio://0/80/2M/', 'radio://0/80/250K/E7E7E7E7E7', 'radio://0/80/1M/1',
               'radio://0?rate_limit=100', 'radio://0/?rate_limit=100', 'radio://e7e7e7e7e7/10/1M/abcdef', 'radio://0123456789/1', 'radio://999999999/125/2M/FFFFFFFFFF?rate_limit=0']:
         parse_case(['E7E7E7E7E7', '0123456789'], u, 'fixed')
     # ---- parse_uri: well-formed and malformed streams -----------------------------------------------------------
-    for i in range(6000 if T else 1200):
+    for i in range(12000 if T else 3000):
         serials = rng.sample(SERIAL_POOL, rng.choice([0, 1, 2, 4]))
         u, _ = g_wellformed(rng, serials)
         parse_case(serials, u, 'wellformed')
-    for i in range(6000 if T else 1200):
+    for i in range(12000 if T else 3000):
         serials = rng.sample(SERIAL_POOL, rng.choice([0, 1, 2, 4]))
         parse_case(serials, g_malformed(rng, serials), 'malformed')
     # exhaustive small space: every (fields present, trailing slash, query) shape x every address length
@@ -1008,7 +1044,7 @@ def gen_cases(ctx):
                     segs = ['80', '1M', ''.join(rng.choice(HEX) for _ in range(alen))][:nf]
                     parse_case([], 'radio://1' + ''.join('/' + s for s in segs) + slash + q, 'shapes')
     # ---- scan_interface / scan_selected --------------------------------------------------------------------------
-    for i in range(400 if T else 120):
+    for i in range(1200 if T else 300):
         r = rng.random()
         address = None if r < 0.2 else 0xE7E7E7E7E7 if r < 0.3 else rng.choice([0, 1, 0xE7E7E7E701, 2 ** 40 - 1, rng.randrange(2 ** 40), rng.randrange(2 ** 16)]) if r < 0.9 \
             else rng.choice([2 ** 40, 2 ** 44, 2 ** 48 - 1, -1, -5])
@@ -1020,7 +1056,7 @@ def gen_cases(ctx):
                 res, got = real_scan(a, [[], [], []])
                 return res if res.startswith('err') else 'ok ' + ','.join(map(str, got))
             add('scanaddr', 'scanaddr %d' % address, thunk, {'op': 'scan_interface address', 'address': address}, ('scanaddr', address))
-    for i in range(300 if T else 100):
+    for i in range(1000 if T else 250):
         links = []
         for _ in range(rng.randrange(0, 5)):
             r = rng.random()
@@ -1036,14 +1072,15 @@ def gen_cases(ctx):
             {'op': 'scan_selected', 'links': links, 'acks': acks}, ('scansel', tuple(links), tuple(acks)))
     # ---- scheme guards -------------------------------------------------------------------------------------------
     seen = set()
-    for i in range(1500 if T else 400):
-        u = g_other_scheme(rng) if rng.random() < 0.6 else g_mutate(rng, g_other_scheme(rng))
+    for i in range(6000 if T else 1500):
+        r = rng.random()
+        u = g_scheme_uri(rng) if r < 0.5 else g_other_scheme(rng) if r < 0.8 else g_mutate(rng, g_other_scheme(rng))
         if u in seen:
             continue
         seen.add(u)
         add('claims', 'claims ' + enc(u), lambda u=u: real_claims(u), {'op': 'claims', 'uri': u}, ('claims', u))
     import warnings
-    for i in range(1500 if T else 400):
+    for i in range(4000 if T else 800):
         pat, strs = g_regex(rng)
         for s in strs:
             def thunk(p=pat, s=s):
@@ -1074,18 +1111,18 @@ def gen_cases(ctx):
     for serial in (0, 1):
         add('initdrivers', 'initdrivers %d' % serial, lambda s=serial: _real_init(bool(s)), {'op': 'init_drivers', 'serial': serial}, ('init', serial))
     # ---- get_link_driver --------------------------------------------------------------------------------------------------
-    for i in range(1200 if T else 260):
+    for i in range(2500 if T else 600):
         serials = rng.sample(SERIAL_POOL[:6], rng.choice([0, 1, 2]))
         w = g_world(rng, serials)
         u = g_connect_uri(rng, w)
         if not safe_for_connect(u):
             continue
         r = rng.random()
-        cls = list(rng.choice(BASE_LISTS)) if r < 0.5 else rng.sample(ALL_CLASSES, rng.randrange(0, 7)) if r < 0.9 else [rng.choice(ALL_CLASSES) for _ in range(rng.randrange(1, 8))]
+        cls = list(rng.choice(BASE_LISTS)) if r < 0.6 else rng.sample(ALL_CLASSES, rng.randrange(2, 7)) if r < 0.9 else [rng.choice(ALL_CLASSES) for _ in range(rng.randrange(1, 8))]
         line = 'driver %s %s %s' % (','.join(cls) or '@', world_words(w), enc(u))
         add('driver', line, lambda c=cls, w=w, u=u: real_driver(c, Boundary(**w), u), {'op': 'get_link_driver', 'classes': cls, 'world': w, 'uri': u}, ('driver', tuple(cls), repr(w), u))
     # ---- open_link ----------------------------------------------------------------------------------------------------------
-    for i in range(500 if T else 130):
+    for i in range(900 if T else 300):
         serials = rng.sample(SERIAL_POOL[:6], rng.choice([0, 1]))
         w = g_world(rng, serials)
         r = rng.random()
@@ -1096,7 +1133,7 @@ def gen_cases(ctx):
             continue      # host/port parsing of these drivers is not modelled: only plain host:port URIs at this level
         cls = list(rng.choice(BASE_LISTS)) if rng.random() < 0.7 else rng.sample(ALL_CLASSES, rng.randrange(0, 7))
         prev = rng.random() < 0.25
-        setup_raises = rng.random() < 0.3 and (u.startswith('usb://') or u.startswith('udp://'))
+        setup_raises = rng.random() < 0.5 and (u.startswith('usb://') or u.startswith('udp://'))
         close_raises = rng.random() < 0.3
         line = 'open %s %s %d %d %d %s' % (','.join(cls) or '@', world_words(w), prev, setup_raises, close_raises, enc(u))
         add('open', line, lambda c=cls, w=w, p=prev, sr=setup_raises, cr=close_raises, u=u: real_open(c, Boundary(setup_raises=sr, close_raises=cr, **w), p, u),
@@ -1166,7 +1203,14 @@ def correspond(ctx):
         real = thunk()
         ctx.count('op:' + kind)
         head = real.split(' ')
-        ctx.count('result:%s:%s' % (kind, head[0] + (':' + head[1] if head[0] in ('err', 'raised') and len(head) > 1 else '')))
+        tag = head[0] + (':' + head[1] if head[0] in ('err', 'raised', 'took') and len(head) > 1 else '')
+        if kind == 'parse':
+            tag = desc['stream'] + ':' + tag
+        elif kind in ('claims', 'rematch', 'initdrivers') or (kind == 'driver' and head[0] == 'ok'):
+            tag += ':' + head[1]
+        elif kind == 'open':
+            tag = '+'.join(e.split(':')[0] for e in head[1].split(',')) + ' ' + ' '.join(head[2:])
+        ctx.count('result:%s:%s' % (kind, tag))
         ctx.case(desc, key)
         if real != model:
             ctx.disagree(kind, json_safe(desc), model[:300], real[:300])
